@@ -270,6 +270,21 @@ Definition create_body_v5r1x (w : wallet) (sk : SK) (ms : list rawmsg) (xs : opt
   do u <- unsigned_v5r1x w ms xs seqno valid msgtype;
   sign_append sk (cdata u) (crefs u).
 
+(** *** the Wallet object's clock and lifetime option.  applyOptions starts from
+    MsgLifetime = DefaultMessageLifetime (3 minutes); WithMessageLifetime(d)
+    replaces it; New stores it as msgDefaultLifetime.  Durations and the clock
+    are in nanoseconds, expiry = (now + lifetime).Unix(). *)
+Definition default_lifetime_ns : Z := 180000000000%Z.
+Definition lifetime_of (o : option Z) : Z := opt_or o default_lifetime_ns.
+Definition expiry (now_ns life_ns : Z) : Z := ((now_ns + life_ns) / 1000000000)%Z.
+
+(* Wallet.CreateMessageBody(msgConfig, messages...): a zero ValidUntil means
+   now + the wallet's configured lifetime; no count check (see marshal_refuses) *)
+Definition api_create_message_body (w : wallet) (sk : SK) (life_ns now_ns : Z) (cfg_valid : option Z)
+           (ms : list rawmsg) (seqno : N) (msgtype rnd : N) : res cell :=
+  create_body w sk ms seqno
+              (match cfg_valid with Some v => v | None => expiry now_ns life_ns end) msgtype rnd.
+
 (** *** the external message: ext_in_msg_info$10 src:addr_none$00
     dest:addr_std$10 anycast:nothing$0 workchain:int8 address:bits256
     import_fee:Grams=0 init:(Maybe (Either StateInit ^StateInit)) body:(Either X ^X),
